@@ -17,7 +17,7 @@ class TLCError(Exception):
 
 
 def run_tlc(module, cfg=None, workdir=None, workers=1, simulate=None, depth=None, seed=None, coverage=False,
-            timeout=3600, env_extra=None, java_opts=None, tag=None, module_dir=None):
+            timeout=3600, env_extra=None, java_opts=None, tag=None, module_dir=None, tolerate_overflow=False):
     """Runs TLC; returns dict(out=<stdout path>, generated, distinct, depth, wall, coverage).
 
     simulate: None or "num=N" string; TLC's stdout (with the emitted JSON lines) is kept in <workdir>/<tag>.out."""
@@ -56,6 +56,13 @@ def run_tlc(module, cfg=None, workdir=None, workers=1, simulate=None, depth=None
             pass
     info = parse_out(out)
     info.update(out=out, wall=wall, rc=p.returncode, cmd=" ".join(cmd[cmd.index("tlc2.TLC"):]))
+    if tolerate_overflow and info.get("error") and "Overflow when computing" in info["error"]:
+        # TLC's integers are 32 bit and it stops at the first product that leaves the range (it never wraps).  Breadth-first
+        # search had then completed every level below the one it was working on, and every transition it printed is a
+        # transition of the specification: the exploration is TRUNCATED (reported as such), not wrong.
+        info["truncated"] = info["error"][:120]
+        info["error"] = None
+        return info
     if p.returncode != 0 and not (simulate and info.get("error") is None):
         raise TLCError(f"TLC exit {p.returncode} on {module}/{cfg}: {info.get('error')}\n(see {out})")
     if info.get("error"):
